@@ -117,7 +117,10 @@ pub mod jsonwebtoken {
         ensures
             r is Ok ==> well_formed(r->Ok_0@) && hdr_of(r->Ok_0@) == *header && claims_of(r->Ok_0@) == claims.jclaims()
                 && signed_with(r->Ok_0@, *key) && enc_family(*key) == family(header.alg),
+            // A-JWT: whether signing fails is a matter of the key and the algorithm only (family mismatch, unusable key material)
+            r is Err ==> !key_usable(*key, header.alg),
     { unimplemented!() }
+    pub uninterp spec fn key_usable(k: EncodingKey, a: Algorithm) -> bool;
 
     // --- abstract JWS facts (uninterpreted) ---
     pub uninterp spec fn now() -> nat;
